@@ -1,6 +1,6 @@
 (* Property C03 -- SIMD-intrinsic builds return the same results as the pure C++ path.
    For every instruction-set level L in {SSE2, SSE3, SSSE3, SSE4.1, SSE4.2, AVX, AVX2, AVX2+FMA} and for GLM_FORCE_QUAT_DATA_WXYZ,
-   every entry of the catalogue tools/trace/tr_C03.cpp (91 operations on aligned vec4 / vec3 / mat4 / mat3 / quat: operators,
+   every entry of the catalogue tools/trace/tr_C03.cpp (125 operations on aligned vec4 / vec3 / mat4 / mat3 / quat and dvec4 / dvec3 / dquat: operators,
    comparisons, common, exponential, geometric, matrix and quaternion functions, lowp variants) traced through GLM's intrinsic
    kernels (simd_shim.hpp) means, component by component and for all real inputs of its domain, what the same entry traced through
    the generic code means.  Identical trees (up to the operand order of + and *, and fma = a*b+c) are decided by computation:
@@ -31,8 +31,8 @@ Theorem C03_sse2_wxyz : simd_means_pure Gen_C03_sse2w.catalogue Gen_C03_purew.ca
 Proof. exact (Rel_trans _ _ _ _ P_C03_sse2w_sse2.edge (Rel_trans _ _ _ _ C03_sse2 P_C03_pure_purew.edge)). Qed.
 Theorem C03_avx2_wxyz : simd_means_pure Gen_C03_avx2w.catalogue Gen_C03_purew.catalogue.
 Proof. exact (Rel_trans _ _ _ _ P_C03_avx2w_avx2.edge (Rel_trans _ _ _ _ C03_avx2 P_C03_pure_purew.edge)). Qed.
-(* the statement is about all 91 entries, none untraceable *)
-Theorem C03_catalogue_size : List.length names = 91%nat. Proof. reflexivity. Qed.
+(* the statement is about all 125 entries, none untraceable *)
+Theorem C03_catalogue_size : List.length names = 125%nat. Proof. reflexivity. Qed.
 (* non-vacuity: the premises of the domain-restricted entries are satisfiable, and a compared value is defined *)
 Example C03_domain_inhabited : D_big (fun _ _ _ => 1%R) /\ D_round (fun _ _ _ => 1%R) /\ D_mod (fun _ _ _ => 1%R) /\ D_nonneg (fun _ _ _ => 1%R).
 Proof.
